@@ -213,7 +213,14 @@ func c04Coverage(run *ev.Run, label string, S *decode.Value) {
 			return
 		}
 	}
-	// (i) union of all leaves covers the window
+	// (i) union of all leaves covers the window. The property is stated per buffer; a sub-decode that is not a
+	// buffer root is only known to have been gap-filled itself when it has gap fields of its own (FieldFormat
+	// sub-decodes are decoded with FillGaps off and their holes are filled by the enclosing decode — macho inside
+	// macho_fat; demanding window coverage from them was a false alarm of the first thorough run, DESIGN 8.4).
+	if !S.IsRoot && len(gapsI) == 0 {
+		run.Count("coverage:scopes:sub-decode-without-own-gaps (its bits are judged by the buffer-root scope)", 1)
+		return
+	}
 	sort.Slice(all, func(i, j int) bool { return all[i].a < all[j].a })
 	cov := mergeIvls(all)
 	pos := winA
